@@ -114,6 +114,9 @@ pub struct Globals {
     pub progress: bool,
     pub legacy_spawn: Vec<TaskSt>,
     pub legacy_supported: bool,
+    /// C13 only: the shell may drop one-shot requests of the old capability API, and the reference then
+    /// expects the task to be released like any other task that can never be woken again
+    pub legacy_drops: bool,
     /// probes
     pub evictions: u64,
     pub zombies_reaped: u64,
@@ -1394,6 +1397,7 @@ impl Model {
                 progress: false,
                 legacy_spawn: vec![],
                 legacy_supported: false,
+                legacy_drops: false,
                 evictions: 0,
                 zombies_reaped: 0,
             },
@@ -1497,7 +1501,7 @@ impl Model {
                 resolved: r.resolved,
                 // a dropped request of the old capability API is not noticed by its task (no wake):
                 // the shell of these runs never drops them (S10 is judged by C13 only)
-                droppable: !undroppable.contains(k) && !r.legacy,
+                droppable: !undroppable.contains(k) && (!r.legacy || (self.g.legacy_drops && r.arity == Arity::Once)),
                 rx_alive: r.rx_alive,
             })
             .collect()
@@ -1539,7 +1543,8 @@ impl Model {
             let mut i = 0;
             while i < self.legacy.len() {
                 let mut spawned = vec![];
-                match self.legacy[i].run(g, &mut outs, &mut spawned, false) {
+                let evict = g.legacy_drops;
+                match self.legacy[i].run(g, &mut outs, &mut spawned, evict) {
                     TaskRun::Remove => {
                         let t = self.legacy.remove(i);
                         g.live_tasks.remove(&t.uid);
